@@ -385,6 +385,15 @@ VARIANTS = [
     dict(property="C18", name="rounding-mode-set", file=SYN, expect="fp-control", old="    pub fn new(fft_size_in: usize, fft_size_out: usize) -> Self {\n", new="    pub fn new(fft_size_in: usize, fft_size_out: usize) -> Self {\n        #[cfg(target_arch = \"x86_64\")]\n        #[allow(deprecated)]\n        unsafe {\n            core::arch::x86_64::_mm_setcsr(core::arch::x86_64::_mm_getcsr() | 0x8000);\n        }\n"),
     dict(property="C17", name="align-dependent-size", file=SYN, expect="R-C17-noninterference", old="        let wanted_subsize = chunk_size_in / sub_chunks;\n        let fft_chunks = div_ceil(wanted_subsize, min_chunk_in);\n        let fft_size_out = fft_chunks * sample_rate_output / gcd;\n        let fft_size_in = fft_chunks * sample_rate_input / gcd;\n\n        let resampler = FftResampler::<T>::new(fft_size_in, fft_size_out);\n        debug!(",
          new="        let wanted_subsize = chunk_size_in / sub_chunks + std::mem::align_of::<T>() - std::mem::align_of::<T>() % 8;\n        let fft_chunks = div_ceil(wanted_subsize, min_chunk_in);\n        let fft_size_out = fft_chunks * sample_rate_output / gcd;\n        let fft_size_in = fft_chunks * sample_rate_input / gcd;\n\n        let resampler = FftResampler::<T>::new(fft_size_in, fft_size_out);\n        debug!("),
+    dict(property="C03", name="new-assert-on-chunk-parity", file=SYN, expect="R-C03-panic-sites", old="        let next_saved_frames = self.saved_frames + self.chunk_size_in;\n", new="        assert!(self.chunk_size_in % 2 == 0 || self.fft_size_in % 2 == 1);\n        let next_saved_frames = self.saved_frames + self.chunk_size_in;\n"),
+    dict(property="C03", name="unwrap-on-last-sample", file=FAST, expect="R-C03-panic-sites", old="        let mut idx = self.last_index;\n\n        let mut n = 0;", new="        let mut idx = self.last_index;\n        let _tail = self.buffer[0].last().copied().unwrap();\n\n        let mut n = 0;"),
+    dict(property="C10", name="reset-early-return-when-idle", file=SYN, expect="reset-single-exit", old="    fn reset(&mut self) {\n        self.overlaps\n            .iter_mut()\n            .for_each(|ch| ch.iter_mut().for_each(|s| *s = T::zero()));\n        self.input_buffers",
+         new="    fn reset(&mut self) {\n        if self.saved_frames == 0 {\n            return;\n        }\n        self.overlaps\n            .iter_mut()\n            .for_each(|ch| ch.iter_mut().for_each(|s| *s = T::zero()));\n        self.input_buffers"),
+    dict(property="C06", name="setter-skips-same-target", file=SINC, expect="always-stores", count=2, old="            if !ramp {\n                self.resample_ratio = new_ratio;\n            }\n            self.target_ratio = new_ratio;\n            Ok(())",
+         new="            if new_ratio == self.target_ratio {\n                return Ok(());\n            }\n            if !ramp {\n                self.resample_ratio = new_ratio;\n            }\n            self.target_ratio = new_ratio;\n            Ok(())"),
+    dict(property="C04", name="getter-early-return", file=SYN, expect="FftFixedOut", old="    fn input_frames_next(&self) -> usize {\n        self.frames_needed\n    }", new="    fn input_frames_next(&self) -> usize {\n        if self.saved_frames >= self.chunk_size_out {\n            return self.fft_size_in;\n        }\n        self.frames_needed\n    }"),
+    dict(property="C05", name="shift-only-when-input-needed", file=SINC, expect="R-C05-shift/SincFixedOut", old="        for buf in self.buffer.iter_mut() {\n            buf.copy_within(\n                self.current_buffer_fill..self.current_buffer_fill + 2 * sinc_len,\n                0,\n            );\n        }\n        self.current_buffer_fill = self.needed_input_size;",
+         new="        if self.needed_input_size > 0 {\n            for buf in self.buffer.iter_mut() {\n                buf.copy_within(\n                    self.current_buffer_fill..self.current_buffer_fill + 2 * sinc_len,\n                    0,\n                );\n            }\n        }\n        self.current_buffer_fill = self.needed_input_size;"),
 ]
 
 
